@@ -41,14 +41,16 @@ META = {
         "appended from self.time/self.dt in lock-step and restored/truncated with one index. R6: the pvd element and "
         "attribute names read by import_from_pvd occur in the template of the matching writer; the time index is cut "
         "from the stem with the padding used to write it; the file-name grammar <stem>[_appendix]_<dim>[_<time>] "
-        "agrees with the reader's position rule. Not decided: values of meshio's own read/write, the grids' cell "
+        "agrees with the reader's position rule. R7: import_from_pvd selects the restart step with a numeric ordering of "
+        "the timestep strings and takes the latest. All functions are analysed on normalised deep copies (private one-level "
+        "helpers inlined, aliases/module constants propagated, list-building loops as comprehensions). Not decided: values of meshio's own read/write, the grids' cell "
         "counts, and which time step is the 'latest' (string ordering of the timestep attribute, see notes)."),
     "rule_text": "one obligation per (gather site | reader call of the per-grid saver | iteration call | loop | geometry builder | key | attribute)",
     "trusted_base": ["python ast", "sa.core (loader, astutil)", "numpy semantics of reshape/ravel order flags, fancy-index gather/scatter"],
     "assumptions": ["meshio returns cell_data[key] as a list of blocks in the order of the cell blocks written",
                     "MixedDimensionalGrid.subdomains/interfaces return a deterministic order for equal arguments",
                     "cell data reaches files only through Exporter._write"],
-    "technique": "writer/reader table extraction with block-local symbolic resolution; permutation direction (gather vs scatter) matching",
+    "technique": "AST normalisation (one-level helper inlining, copy propagation, loop->comprehension) + writer/reader table extraction with block-local symbolic resolution; permutation direction (gather vs scatter) matching",
 }
 MIN_INSTANCES = {"R1": 7, "R2": 7, "R3": 6, "R4": 3, "R5": 6, "R6": 9, "R7": 1}
 
@@ -304,6 +306,13 @@ def _geom_choice(fn: ast.AST, e: ast.expr):
         return None
     if isinstance(e, ast.IfExp) and _table_of(e.body) and _table_of(e.orelse):
         return e.test, _table_of(e.body), _table_of(e.orelse)
+    # tables = self.T1 if <test> else self.T2 ; geometry = tables[dim]
+    if isinstance(e, ast.Subscript):
+        b = e.value
+        if isinstance(b, ast.Name):
+            b = single_assign_value(fn, b.id)
+        if isinstance(b, ast.IfExp) and all(isinstance(x, ast.Attribute) and u(x.value) == "self" for x in (b.body, b.orelse)):
+            return b.test, b.body.attr, b.orelse.attr
     return None
 
 
@@ -353,6 +362,21 @@ def _kind_when(scope: ast.AST, test: ast.expr) -> str | None:
 
 # ---------------- R1 ----------------------------------------------------------------------------
 
+def _expand_block(e: ast.expr, scope: ast.AST, depth: int = 0) -> list[ast.expr]:
+    """Alternatives a block expression can take: both arms of a conditional expression; for a local name, every value
+    assigned to it inside `scope`."""
+    if depth > 4:
+        return [e]
+    if isinstance(e, ast.IfExp):
+        return _expand_block(e.body, scope, depth + 1) + _expand_block(e.orelse, scope, depth + 1)
+    if isinstance(e, ast.Name):
+        vals = [s.value for s in ast.walk(scope) if isinstance(s, (ast.Assign, ast.AnnAssign)) and getattr(s, "value", None) is not None
+                and [u(t) for t in assigned_targets(s)] == [e.id]]
+        if vals:
+            return [x for v in vals for x in _expand_block(v, scope, depth + 1)]
+    return [e]
+
+
 def _writer_sites(w: ast.FunctionDef):
     """Places where _write builds the per-block data: (ids variable, geometry parameter, block expressions, node)."""
     wp = _params(w)
@@ -360,12 +384,13 @@ def _writer_sites(w: ast.FunctionDef):
     for n in walk_local(w):
         if isinstance(n, ast.For) and _is_attr(n.iter, "cell_ids") and isinstance(n.iter.value, ast.Name) and n.iter.value.id in wp \
                 and isinstance(n.target, ast.Name):
-            elts = [c.args[0] for c in calls_in(n) if isinstance(c.func, ast.Attribute) and c.func.attr == "append" and len(c.args) == 1]
+            elts = [x for c in calls_in(n) if isinstance(c.func, ast.Attribute) and c.func.attr == "append" and len(c.args) == 1
+                    for x in _expand_block(c.args[0], n)]
             sites.append((n.target.id, n.iter.value.id, elts, n))
         if isinstance(n, (ast.ListComp, ast.GeneratorExp)) and len(n.generators) == 1 and _is_attr(n.generators[0].iter, "cell_ids") \
                 and isinstance(n.generators[0].iter.value, ast.Name) and n.generators[0].iter.value.id in wp \
                 and isinstance(n.generators[0].target, ast.Name) and not n.generators[0].ifs:
-            sites.append((n.generators[0].target.id, n.generators[0].iter.value.id, [n.elt], n))
+            sites.append((n.generators[0].target.id, n.generators[0].iter.value.id, _expand_block(n.elt, n), n))
     return sites
 
 
